@@ -222,6 +222,20 @@ fn main() {
         let g = |k: u64| k as f32 / (sl - 1) as f32;
         f32_hsl_total([hs[(i % nh) as usize], g(i / nh % sl), g(i / nh / sl)], r);
     }));
+    // non-dyadic decimal grids (k/100): values whose products and differences round
+    let dn: u64 = if quick { 101 } else { 201 };
+    rep.merge(par_range(&cfg, dn * dn * dn, |i, r| {
+        let g = |k: u64| k as f32 / (dn - 1) as f32;
+        let c = [g(i % dn), g(i / dn % dn), g(i / dn / dn)];
+        f32_hsl_total(c, r);
+        f32_rgb_roundtrip(c, r);
+    }));
+    // grays and near-grays at extreme magnitudes
+    let tiny = [0.0f32, 1e-45, 1e-38, 1e-30, 1e-20, 1e-10, 1e-7, 1e-5, 0.5, 0.999_999_94, 1.0];
+    for (i, &a) in tiny.iter().enumerate() { for &b in &tiny[i..] {
+        f32_rgb_roundtrip([a, a, a], &mut rep);
+        for c in [[a, a, b], [a, b, a], [b, a, a], [a, b, b], [b, a, b], [b, b, a]] { f32_rgb_roundtrip(c, &mut rep); }
+    }}
     // grays, float
     rep.merge(par_range(&cfg, 4097, |i, r| { let v = i as f32 / 4096.0; f32_rgb_roundtrip([v, v, v], r); let g: Color3f = gray(v); if g.0 != [v, v, v] { r.violation(format!("gray-ctor|{v}"), "gray() not replicated".into(), J::Null); } }));
     // RGBA / HSLA float wrappers keep alpha
@@ -256,6 +270,6 @@ fn main() {
     rep.merge(par_range(&cfg, lat.len() as u64, |i, r| to_u8_clamp(lat[i as usize], r)));
     rep.sample(0, || obj! {"u8_rgb" => vec![255u8, 0, 128], "f32_rgb" => vec![0.8f32, 1.0, 0.0], "f32_hsl" => vec![0.2f32, 1.0, 0.5], "word" => "0x12345678", "add" => "(200,7,250)+(100,-100,100)"});
     rep.finish(&cfg, "exploration",
-        "all 2^24 RGB8 -> HSL -> RGB (<=8/255), all 2^24 HSL8 -> RGB (total), float RGB grid n^3 plus the six sextant-boundary surfaces (on and one step off) -> HSL -> RGB (<=1e-4, in range, grays), float HSL grid (hue k/96, k/1000+.0005, k/6 +-2ulp; s,l grids) -> RGB in range and hue 1 == hue 0, packed-word byte order for all 2^32 RGBA words (quick: 64^4 lattice), u8 saturating add for every channel x delta in -300..300 and large deltas, float->u8 clamp lattice incl. NaN/inf. non-trivial = chromatic colour / saturating sum / out-of-range channel.",
+        "all 2^24 RGB8 -> HSL -> RGB (<=8/255), all 2^24 HSL8 -> RGB (total), float RGB grid n^3 plus the six sextant-boundary surfaces (on and one step off) -> HSL -> RGB (<=1e-4, in range, grays), decimal k/100 grids for both directions, grays and near-grays at magnitudes 1e-45..1, float HSL grid (hue k/96, k/1000+.0005, k/6 +-2ulp; s,l grids) -> RGB in range and hue 1 == hue 0, packed-word byte order for all 2^32 RGBA words (quick: 64^4 lattice), u8 saturating add for every channel x delta in -300..300 and large deltas, float->u8 clamp lattice incl. NaN/inf. non-trivial = chromatic colour / saturating sum / out-of-range channel.",
         &["float tolerance 1e-4 and 8/255 as stated", "out-of-range slack 1e-6 on float channels (the library's own debug assertions are exact and armed in this profile)", "i32 deltas within +-(2^31-256) for saturating add"]);
 }
